@@ -417,6 +417,8 @@ func judgeRetry(cs Case, log []Rec, add func(prop, sig, what string, w any), end
 	commitT := map[string]int64{}
 	commits := map[string]int{}
 	pendingDLQ := map[int64][]string{}
+	dlqSent := map[string]bool{}
+	stopReturned := false
 	lastMainBatch := int64(-1)
 	idOf := func(src uint64, off int64) string { return fmt.Sprintf("%d/%d", src, off) }
 	_ = idOf
@@ -431,6 +433,9 @@ func judgeRetry(cs Case, log []Rec, add func(prop, sig, what string, w any), end
 				lastMainBatch = x.Batch
 			} else {
 				pendingDLQ[x.Batch] = x.IDs
+				for _, id := range x.IDs {
+					dlqSent[id] = true
+				}
 			}
 		case "send.ret":
 			if x.Out == "main" {
@@ -467,9 +472,27 @@ func judgeRetry(cs Case, log []Rec, add func(prop, sig, what string, w any), end
 			}
 		case "dlq.out":
 			dlqOut[x.ID]++
+		case "stop.ret":
+			stopReturned = true
 		}
 	}
 	_ = lastMainBatch
+	// Stop drains the main output first (batches in flight may still exhaust
+	// their retries and be handed over) and the dead queue after it: when Stop
+	// has returned, everything handed to the dead queue has been written by it
+	// except the last, partially filled batch (fewer events than its count limit).
+	if stopReturned && cs.DLQ != nil && cs.DLQ.Bytes == 0 && cs.DLQ.Count > 0 {
+		var lost []string
+		for id := range dlqOut {
+			if !dlqSent[id] {
+				lost = append(lost, id)
+			}
+		}
+		if len(lost) >= cs.DLQ.Count {
+			sort.Strings(lost)
+			add("C09", "handed-to-dead-queue-but-never-written-at-stop", fmt.Sprintf("%d events of exhausted batches were handed to the dead-queue output and never written by it although Stop returned (a partial last batch holds fewer than %d): the dead queue was not accepting events any more", len(lost), cs.DLQ.Count), lost)
+		}
+	}
 	// commits by id need the engine's offset table: rebuild from in.call records
 	byOff := map[string]string{}
 	kinds := map[string]string{}
